@@ -757,7 +757,7 @@ func (c hCfg) wire(idpBase string) string {
 	if c.Disc != nil {
 		auth, tok = "https://static.invalid/authorize", "https://static.invalid/token"
 	}
-	return strings.Join([]string{"cfg", hx(c.ClientID), hx(c.Secret), hx(c.CallbackURI), hx(u.Scheme), hx(u.Hostname()), hx(u.Port()), hx(u.Path),
+	return strings.Join([]string{"cfg", hx(c.ClientID), hx(c.Secret), hx(c.CallbackURI), hx(u.Scheme), hx(u.Hostname()), hx(u.Port()), hx(u.EscapedPath()),
 		hx(auth), hx(tok), listOr(sc, ","), hx(c.Prefix), hx(c.IDHeader), hx(c.IDPreamble), acc, lo}, " ")
 }
 
